@@ -365,8 +365,13 @@ func (t *Dense) ShallowClone() *Dense {
 	retVal.flag = t.flag
 	retVal.array = t.array
 
-	retVal.old = t.old
-	retVal.transposeWith = t.transposeWith
+	// the bookkeeping of a pending transpose is copied, not shared: either tensor hands its own slices back to the pool
+	// when the transpose is undone or done, which zeroed them under the other one
+	t.old.CloneTo(&retVal.old)
+	if t.transposeWith != nil {
+		retVal.transposeWith = BorrowInts(len(t.transposeWith))
+		copy(retVal.transposeWith, t.transposeWith)
+	}
 	retVal.viewOf = t.viewOf
 	retVal.mask = t.mask
 	retVal.maskIsSoft = t.maskIsSoft
